@@ -748,6 +748,16 @@ pub struct RunLog {
     pub dgram_rcvd: Vec<(Side, u32, u32, u64)>,
 }
 
+impl RunLog {
+    pub fn release_memory(&mut self) {
+        self.events = Vec::new();
+        self.started = BTreeMap::new();
+        self.finished = BTreeMap::new();
+        self.dgram_sent = Vec::new();
+        self.dgram_rcvd = Vec::new();
+    }
+}
+
 pub type Log = Arc<Mutex<RunLog>>;
 
 pub fn run_case(case: &Case, _mode: Mode) -> Outcome {
